@@ -29,31 +29,39 @@ def build(ch):
     f70 = ch.choose('flag70', ['', '+'], free=True)
     copy = ch.choose('copy', ['none', 'lower', 'higher', 'both'], free=True)
     copy_used = ch.choose('copy-used', [False, True], free=True) if copy != 'none' else False
+    f55 = ch.choose('flag55', ['', '*', '+'], free=True)
+    tr20 = ch.choose('tr-on-20', [False, True], free=True)
     macro = ch.choose('macro-flag', ['', '*', '+'], free=True)
     skip = ch.choose('skip-dedup', [False, True], free=True)
     st.cells = ['1 0 10 -20 30 -40 imp:n=1',
-                '2 0 -50 (-10:20:-30:40) imp:n=1',
+                '2 0 -50 (-10:20:-30:40) 55 imp:n=1',
                 '3 0 50 -60 imp:n=0',
-                '4 0 60 imp:n=0']
-    st.surfs = ['10 px -3', '%s20 px 3' % f20, '30 py -3', '40 py 3', '%s50 so 8' % f50, '%s60 pz 9' % f60,
-                '%s70 pz -9' % f70]
+                '4 0 60 imp:n=0',
+                '5 0 -55 -50 (-10:20:-30:40) imp:n=1']
+    # surface 20 optionally carries a TR number (pure translation chosen so that the locus is still x = 3)
+    s20 = '%s20 9 px 1' % f20 if tr20 else '%s20 px 3' % f20
+    st.surfs = ['10 px -3', s20, '30 py -3', '40 py 3', '%s50 so 8' % f50, '%s60 pz 9' % f60,
+                '%s70 pz -9' % f70, '%s55 k/z 0 6 -1 0.25 1' % f55]
+    if tr20:
+        st.data = ['tr9 2 0 0']
     if copy in ('lower', 'both'):
         st.surfs.append('15 px 3')
     if copy in ('higher', 'both'):
         st.surfs.append('25 px 3')
     if copy_used:
         c = 15 if copy in ('lower', 'both') else 25
-        st.cells[1] = '2 0 -50 (-10:%d:-30:40) imp:n=1' % c
+        st.cells[1] = '2 0 -50 (-10:%d:-30:40) 55 imp:n=1' % c
     if macro:
         st.surfs.append('%s80 rpp -1 1 -1 1 -1 1' % macro)
-    st.flags = {20: f20, 50: f50}
+    st.flags = {20: f20, 50: f50, 55: f55}
     st.unused_flags = {60: f60, 70: f70}
     st.macro = macro
     st.options = ['--skip-deduplication'] if skip else []
     return st
 
 
-REF = {20: refsem.mcnp_surface('px', [3.0]), 50: refsem.mcnp_surface('so', [8.0])}
+REF = {20: refsem.mcnp_surface('px', [3.0]), 50: refsem.mcnp_surface('so', [8.0]),
+       55: refsem.mcnp_surface('k/z', [0.0, 6.0, -1.0, 0.25])}
 
 
 def scenarios(tier):
